@@ -11,6 +11,11 @@ pub mod c15;
 pub mod c16;
 pub mod c19;
 pub mod c21;
+pub mod c02;
+pub mod c10;
+pub mod c25;
+pub mod c26;
+pub mod c27;
 pub mod c28;
 pub mod c30;
 pub mod c31;
@@ -46,6 +51,11 @@ pub fn registry() -> Vec<Box<dyn DynProp>> {
         Box::new(Adapter(Arc::new(conc::C24))),
         Box::new(Adapter(Arc::new(c19::C19))),
         Box::new(Adapter(Arc::new(c21::C21))),
+        Box::new(Adapter(Arc::new(c02::C02))),
+        Box::new(Adapter(Arc::new(c10::C10))),
+        Box::new(Adapter(Arc::new(c25::C25))),
+        Box::new(Adapter(Arc::new(c26::C26))),
+        Box::new(Adapter(Arc::new(c27::C27))),
         Box::new(Adapter(Arc::new(c28::C28))),
         Box::new(Adapter(Arc::new(c30::C30))),
         Box::new(Adapter(Arc::new(c31::C31))),
